@@ -88,6 +88,8 @@ static void unary_all(vf_case *c) {
 	/* conversions */
 	{
 		bn_t t; bn_new(t); vf_bn_set(t, za); junk(C); VF_TRY(th, fp_prime_conv(C, t)); if (th) vf_fail(NULL, "fp_prime_conv raised"); else expect("fp_prime_conv", C, za, NULL);
+		/* the destination held a negative number before: the result is a residue in [0, p) all the same */
+		{ mpz_t m5; mpz_init_set_si(m5, -5); vf_bn_set(t, m5); mpz_clear(m5); }
 		vf_fp_set(A, za); VF_TRY(th, fp_prime_back(t, A)); if (th) vf_fail(NULL, "fp_prime_back raised"); else { transitions++; vf_bn_get(zg, t); if (mpz_cmp(zg, za) || !vf_bn_normal(t)) { char b[300]; gmp_snprintf(b, sizeof b, "fp_prime_back: expected %Zx got %Zx", za, zg); vf_fail(NULL, "%s", b); } }
 		/* values >= p and negative are reduced by conv */
 		mpz_add(zt, za, vf_p); vf_bn_set(t, zt); VF_TRY(th, fp_prime_conv(C, t)); if (!th) expect("fp_prime_conv(a+p)", C, za, NULL);
@@ -184,6 +186,13 @@ static void binary_all(vf_case *c) {
 	vf_fp_set(A, za); vf_fp_set(B, zb);
 	transitions++;
 	if ((fp_cmp(A, B) == RLC_EQ) != (mpz_cmp(za, zb) == 0)) vf_fail(NULL, "fp_cmp: equality of elements differs from equality of residues");
+	/* simultaneous inversion of the batch {a, b, ab + 1} (non-zero members), every length, separate output array and in place */
+	{ static fp_t IN[3], OUT[3]; mpz_t e[3]; int m = 0; for (int i = 0; i < 3; i++) mpz_init(e[i]);
+		if (mpz_sgn(za)) mpz_set(e[m++], za); if (mpz_sgn(zb)) mpz_set(e[m++], zb); mpz_mul(zt, za, zb); mpz_add_ui(zt, zt, 1); mpz_mod(zt, zt, vf_p); if (mpz_sgn(zt)) mpz_set(e[m++], zt);
+		for (int n = 1; n <= m; n++) for (int al = 0; al < 2; al++) { for (int i = 0; i < n; i++) { vf_fp_set(IN[i], e[i]); junk(OUT[i]); } fp_t *o = al ? IN : OUT; VF_TRY(th, fp_inv_sim(o, (const fp_t *)IN, n));
+			if (th) { vf_fail(NULL, "fp_inv_sim(n = %d) raised %d", n, th); continue; }
+			for (int i = 0; i < n; i++) { mpz_invert(ze, e[i], vf_p); char w[64]; snprintf(w, sizeof w, "fp_inv_sim(n = %d%s) element %d", n, al ? ", in place" : ", separate output", i); expect(w, o[i], ze, NULL); } }
+		for (int i = 0; i < 3; i++) mpz_clear(e[i]); }
 }
 
 /* (a, digit) forms */
